@@ -95,6 +95,11 @@ CHECKS = {
          'order of the effective (lane, op) threads of each GPU launch (n! up to 6 threads) through the real kernel under a controlled launcher, comparing the memory image after the level; '
          'read/write sets of all threads are logged and checked pairwise for conflicts, which extends the result to instruction-level interleavings; plus the static partition check',
          'trusted: compositional and independence arguments stated in the evidence assumptions; Python semantics of the kernels (no real CUDA memory model)', 'DESIGN.md section 4 C07'),
+
+ 'C11': ('exploration', 'bounded enumeration of netlists x textual renderings (deviation-bounded) vs. AST truth tables',
+         'every AST of the parser family is rendered for all five libraries under the default rendering and every single deviation of 14 rendering options (all pairs in the thorough tier), '
+         'with and without branch forks, parsed, resolved and compared by port order and truth table with the AST; primitive-only ASTs additionally through the bench format and across formats',
+         'trusted: renderer (mc/render.py) and reference evaluator; a bounded set of rendering deviations, not all texts', 'DESIGN.md section 4 C11'),
 }
 
 NOT_YET = 'check under construction in this session (see DESIGN.md build order); will be claimed once its exhaustive check exists'
